@@ -10,6 +10,21 @@ TB_STR = "R-strfn: str::replace(char, &str) replaces every occurrence left to ri
 TB_CHAR = "R-charfn: char::is_alphabetic is A-Z|a-z on ASCII (validated natively over all 128 code points each run), uninterpreted elsewhere; is_ascii_digit is '0'..='9' (validated over all chars)"
 
 PROPS = {
+    "C15": {
+        "kind": "verus",
+        "units": [{"name": "take"}],
+        "search": True,
+        "bounded_standin": "clone independence and rendering equality (derive(Clone/PartialEq) and the renderers are not under contract): fully populated builders of the 12 statement types on the real crate",
+        "technique": "Verus contracts on the 12 extracted take() functions (result == *old(self); for query statements every field of the struct is Default afterwards - predicate GENERATED from the extracted struct) and on the clear_* / reset_* functions (whole-struct frame over the generated field list)",
+        "trusted_base": TB_COMMON + [
+            "R-mem: std::mem::take leaves Default (empty Vec / None), std::mem::replace leaves the given value",
+            "R-opaque: every field type that is not one of the 12 structs (the extracted code only moves such values)",
+            "#[derive(Clone)] is a structural copy (vclone), #[derive(Default)] gives Default fields; SeaRc<dyn Iden>::eq (vtable pointer + string, unsafe transmute) is NOT verified"],
+        "assumptions": [
+            "`renders identically` follows from `equal` only if rendering is a function of the statement value (the renderers take &self and the statement types have no interior mutability); bounded-tested by the stand-in",
+            "independence of a clone from its source follows from ownership (no Rc-shared mutable state in statements: SeaRc<dyn Iden> is immutable)",
+        ],
+    },
     "C16": {
         "kind": "verus",
         "units": [{"name": "token"}],
@@ -183,6 +198,7 @@ PROPS = {
 }
 
 LEVEL_TEXT = {
+    "C15": "Unbounded proof for all builder states: each of the 12 take() functions returns exactly *old(self) (every field, so a field cloned-then-kept or forgotten fails), the two query statements leave every field at its Default (predicate generated from the struct text on each run), and clear_selects / from_clear / reset_limit / reset_offset / clear_order_by change exactly one field.",
     "C10": "Unbounded proof for all statements and all rows: values() / select_from() succeed iff the counts match, return ColValNumMismatch{col_len, val_len} otherwise and leave *self unchanged; accepted rows are appended after the existing ones and nothing else changes; rect (every row as long as the column list) is preserved by every operation except columns() after rows exist (a recorded known finding; the rest of columns()'s contract, incl. rect when no source exists, is proved).",
     "C05": "Unbounded proof over all operator pairs / sides / engines / both feature modes: the extracted deciders equal their decision spec, lemma_drop_is_safe / lemma_lassoc_is_safe / lemma_between_ok / lemma_escape_ok show every omitted parenthesis pair is redundant under each engine's table, and the extracted binary_expr / prepare_between_bound / NOT arm emit exactly `[(] l [)] op [(] r [)]` with those decisions.",
     "C06": "Unbounded proof over all condition trees, all call histories and all three-valued valuations: sem(result) == sem(what was added) for Condition::{add, add_option, not, any, all}, IntoCondition, ConditionHolder::add_condition (holder' == holder AND addition, empty == TRUE), cond_where / and_where / and_where_option / cond_having / and_having of the statements, to_simple_expr (tree == condition, termination proved), prepare_condition (Empty renders nothing).",
@@ -206,7 +222,7 @@ NOT_APPLICABLE = {
     "C11": _NOT_YET, 
     "C13": "decided by the SQLite catalogue (PRAGMA table_xinfo, sqlite_master) after executing DDL; no contract reaches the engine's DDL interpreter or its type-affinity rules (DESIGN.md section 6)",
     "C14": "needs a MySQL/Postgres DDL grammar as oracle; its core is a 40-arm format! table whose only possible contract is a copy of itself (DESIGN.md section 6)",
-    "C15": _NOT_YET,
+    
     "C19": "the mapping is computed at compile time by a proc-macro over syn token trees with heck; the quantifier is over programs; neither Verus nor Kani can take proc_macro/syn/quote code (DESIGN.md section 6)",
     
 }
